@@ -149,6 +149,12 @@ impl IsoDateTime {
         utc_epoch_nanos(self.date, &self.time)
     }
 
+    /// `GetUTCEpochNanoseconds` without the instant range check: a date-time inside the
+    /// date-time limits can lie up to a day outside the instant limits.
+    pub(crate) fn as_unchecked_nanoseconds(&self) -> i128 {
+        to_unchecked_epoch_nanoseconds(self.date, &self.time)
+    }
+
     /// Specification equivalent to 5.5.9 `AddDateTime`.
     pub(crate) fn add_date_duration(
         &self,
